@@ -550,7 +550,7 @@ def obligations(tier: str) -> List[Obligation]:
     rts = [('A', 1, 1, 3), ('AAAA', 28, 14, 2), ('PTR', 12, 0, 3), ('TXT', 16, 0, 3), ('SRV', 33, 6, 2), ('HINFO', 13, 0, 2), ('NSEC', 47, 0, 3), ('unknown', 99, 0, 3)]
     for name, t, prefix, R in rts:
         for nm in (((0,) if name in ('AAAA', 'HINFO') else (1,)) if tier == 'quick' else (1, 2)):
-            shape = {'payload': 0, 'counts': [0, 1, 0, 0], 'flags': 0x8400, 'record_type': t, 'rdata_prefix': prefix, 'rdata': R if tier == 'quick' or nm == 2 or name in ('PTR', 'NSEC') else R + 1,  # (PTR / NSEC with 4 free rdata octets do not finish in 25 min) 'name_octets': nm}
+            shape = {'payload': 0, 'counts': [0, 1, 0, 0], 'flags': 0x8400, 'record_type': t, 'rdata_prefix': prefix, 'rdata': R if tier == 'quick' or nm == 2 or name in ('PTR', 'NSEC') else R + 1, 'name_octets': nm}  # (PTR / NSEC with 4 free rdata octets do not finish in 25 min)
             obs.append(Obligation(f'decode[record {name};name={nm};rdata={prefix}+{shape["rdata"]}]', make(shape), 'decode-record', shape, timeout=280 if tier == 'quick' else 1500))
     obs.append(Obligation('label-of-any-legal-length', make_long_label({}), 'long-label', {}, timeout=120))
     chains = [('backward', 3, None), ('backward', 64, None), ('backward', 65, None), ('backward', 1100, None), ('forward', 3, None), ('forward', 1100, None),
